@@ -11,6 +11,7 @@ import hmac as _hmac
 from .. import core
 from ..core import SymInt, EngineError
 from ..seq import SymSeq, mk_seq, items_of
+from .. import seq as _seq
 
 algorithms_available = set(_h.algorithms_available) | {"ripemd160"}
 algorithms_guaranteed = _h.algorithms_guaranteed
@@ -46,19 +47,18 @@ def uf_apply(tag, items, out_len):
     ex = core.CUR
     if ex is not None:
         ex.uf_apps.append((tag, list(items)))
-        if getattr(ex, "collision_free", False):
-            # stated assumption "no collision among the hash inputs that occur": Hinv(H(x)) = x for every applied x
-            ikey = ("inv",) + key
-            g = _UF.get(ikey)
-            if g is None:
-                g = z3.Function("Hinv_%s_%d" % (tag, n), z3.BitVecSort(8 * out_len), z3.BitVecSort(8 * n))
-                _UF[ikey] = g
-            ex.pc.append(g(r) == arg)
-            ex.model = None
+    app_id = len(_seq.UF_APPS)
+    _seq.UF_APPS.append((tag, list(items), out_len))
     out = []
     for i in range(out_len):
         hi = 8 * (out_len - i) - 1
-        out.append(core.mk_int(z3.ZeroExt(1, z3.Extract(hi, hi - 7, r)), 0, 255))
+        b = core.mk_int(z3.ZeroExt(1, z3.Extract(hi, hi - 7, r)), 0, 255)
+        if isinstance(b, SymInt):
+            _seq.UF_SRC[b.e.get_id()] = (b.e, app_id, i)
+        out.append(b)
+    if len(_seq.UF_SRC) > 400000:
+        _seq.UF_SRC.clear()
+        del _seq.UF_APPS[:]
     return SymSeq("bytes", out)
 
 
